@@ -885,3 +885,14 @@ v("c18-deprecation-check-named-flags", "C18", "DEPRECATION-DIRECTION", T + "vali
 v("c18-type-lookup-falls-back-to-builtins", "C18", "TYPE-LOOKUP", T + "introspection.py",
   "        return info.schema.get_type(args[\"name\"])\n", "        return info.schema.get_type(args[\"name\"]) or specified_scalar_types.get(args[\"name\"])\n",
   extra_edits=[{"file": T + "introspection.py", "old": "from .scalars import GraphQLBoolean, GraphQLString\n", "new": "from .scalars import GraphQLBoolean, GraphQLString, specified_scalar_types\n"}])
+
+# -- round 5: C05 ------------------------------------------------------------------------------------------
+v("c05-pump-waits-only-for-items-with-work", "C05", "PUMP-PACING", E + "incremental/work_queue.py",
+  "                    await handled.wait()\n", "                    if any(item.work for item in items):\n                        await handled.wait()\n")
+v("c05-drain-of-failed-source-unshielded", "C05", "DRAIN-GUARDED", E + "executor.py",
+  "    awaitables: list[Awaitable[Any]] = []\n    with suppress_exceptions:\n        awaitables.extend(item for item in iterator if is_awaitable(item))\n    return awaitables\n",
+  "    return [item for item in iterator if is_awaitable(item)]\n")
+v("c05-drain-in-try", "C05", "DRAIN-GUARDED", E + "executor.py",
+  "    awaitables: list[Awaitable[Any]] = []\n    with suppress_exceptions:\n        awaitables.extend(item for item in iterator if is_awaitable(item))\n    return awaitables\n",
+  "    awaitables: list[Awaitable[Any]] = []\n    try:\n        for item in iterator:\n            if is_awaitable(item):\n                awaitables.append(item)\n    except Exception:  # noqa: BLE001\n        pass\n    return awaitables\n",
+  expect="silent")
